@@ -256,6 +256,9 @@ def reader_rules(ctx, R):
                 # must come from a buffer consumption in this iteration: x reachable from a consume node w/o passing recv
                 if any(x is cn or x in cfgl.reach(cn, avoid=[node], exc=False) for cn in consume):
                     continue
+                # ... or lead to one: the way out is the "found" branch itself, which removes the line before anything returns
+                if s in consume or cfgl.exit not in cfgl.reach(s, avoid=consume, exc=False):
+                    continue
                 # end-of-stream exit: dominated (within the iteration) by an emptiness test of the received data
                 recv_var = None
                 st = stmt_of(c)
